@@ -7,6 +7,7 @@ r=${ROUND:-}
 wt=/tmp/seed$r-$id
 so=/tmp/seedout$r/$id
 out=/verif/seeded/$id${r:+-$r}
+[ -d $wt ] || { echo "$id: no worktree $wt"; exit 2; }
 mkdir -p $out
 git -C $wt diff > $out/patch.diff
 [ -s $out/patch.diff ] || { echo "$id: empty diff"; exit 2; }
